@@ -183,3 +183,79 @@ int bad_ver_guard__after_reduction__cp_sd_ver(const uint8_t *sig, size_t sig_len
 	}
 	return result;
 }
+
+/* ------------------------------------------------------------------ PSS-BITS / PSS-EMLEN */
+#define ST_SIG_FIN 1
+#define ST_VER 2
+#define RSA_SIG_FIN 6
+
+/* the signer clears from bit m_len - 1, the verifier tests and clears from there as well */
+int ok_pss__pad_pkcs2(bn_t m, size_t *p_len, size_t m_len, size_t k_len, int operation) {
+	int r = 1;
+	if (operation == ST_SIG_FIN) {
+		for (int i = m_len - 1; i < 8 * k_len; i++) {
+			bn_set_bit(m, i, 0);
+		}
+	} else {
+		for (int i = m_len - 1; i < 8 * k_len; i++) {
+			if (bn_get_bit(m, i) != 0) {
+				r = 0;
+			}
+		}
+		for (int i = m_len - 1; i < 8 * k_len; i++) {
+			bn_set_bit(m, i - 264, 0);
+		}
+	}
+	return r ? RLC_OK : RLC_ERR;
+}
+
+/* the verifier starts one bit too high: the bit the standard requires to be zero is never tested */
+int bad_pss_bits__late__pad_pkcs2(bn_t m, size_t *p_len, size_t m_len, size_t k_len, int operation) {
+	int r = 1;
+	if (operation == ST_SIG_FIN) {
+		for (int i = m_len - 1; i < 8 * k_len; i++) {
+			bn_set_bit(m, i, 0);
+		}
+	} else {
+		for (int i = m_len; i < 8 * k_len; i++) {
+			if (bn_get_bit(m, i) != 0) {
+				r = 0;
+			}
+		}
+		for (int i = m_len - 1; i < 8 * k_len; i++) {
+			bn_set_bit(m, i - 264, 0);
+		}
+	}
+	return r ? RLC_OK : RLC_ERR;
+}
+
+int ok_emlen__cp_rsa_sig(bn_t eb, size_t *sig_len, const bn_t n) {
+	size_t size, pad_len = 32;
+	size = bn_bits(n) - 1;
+	size = (size / 8) + (size % 8 > 0);
+	return ok_pss__pad_pkcs2(eb, &pad_len, bn_bits(n), size, RSA_SIG_FIN);
+}
+
+/* written differently, the same function of the modulus length */
+int ok_emlen__cp_rsa_ver(bn_t eb, size_t sig_len, const bn_t n) {
+	size_t size, pad_len = 32;
+	size = bn_bits(n) - 1;
+	if (size % 8 == 0) {
+		size = size / 8;
+	} else {
+		size = bn_size_bin(n);
+	}
+	return ok_pss__pad_pkcs2(eb, &pad_len, bn_bits(n), size, ST_VER);
+}
+
+/* one byte short when the modulus length is 1 mod 8 */
+int bad_pss_emlen__short__cp_rsa_ver(bn_t eb, size_t sig_len, const bn_t n) {
+	size_t size, pad_len = 32;
+	size = bn_bits(n) - 1;
+	if (size % 8 == 0) {
+		size = size / 8 - 1;
+	} else {
+		size = bn_size_bin(n);
+	}
+	return ok_pss__pad_pkcs2(eb, &pad_len, bn_bits(n), size, ST_VER);
+}
